@@ -942,24 +942,36 @@ def registry_probe_inputs(name, rng, k=40):
     else:
         picks = rng.sample(entries, min(len(entries), k)) + rng.sample(with_children, min(len(with_children), k))
     for e in picks:
-        prefix = ''
         p = e.parent
         chain = []
         while p is not None:
             chain.append(p)
             p = p.parent
+        prefixes = ['']
         for a in reversed(chain):
             lo0, hi0 = a.ranges[0]
             if lo0 != hi0:
                 # a wildcard range: use a sibling that names a single value (a character that is meaningful at this
-                # position), falling back on the lower end of the range
+                # position); without such a sibling every single character of the range is tried (the file may give
+                # one of them a meaning of its own, like the X of cfi.dat), else both ends of the range
                 sibs = a.parent.children if a.parent else roots
                 singles = [x.ranges[0][0] for x in sibs if x is not a and x.ranges[0][0] == x.ranges[0][1] and len(x.ranges[0][0]) == len(lo0)]
-                prefix += rng.choice(singles) if singles else lo0
+                if singles:
+                    cands = [rng.choice(singles)]
+                elif len(lo0) == 1 and lo0 < hi0:
+                    cands = [chr(c) for c in range(ord(lo0), ord(hi0) + 1) if chr(c).isalnum()]
+                else:
+                    cands = [lo0, hi0]
             else:
-                prefix += lo0
+                cands = [lo0]
+            prefixes = [q + c for q in prefixes for c in cands]
+            if len(prefixes) > 30:
+                prefixes = rng.sample(prefixes, 30)
         lo, hi = rng.choice(e.ranges)
-        heads = [prefix + lo, prefix + hi]
+        heads = []
+        for prefix in prefixes:
+            heads += [prefix + lo, prefix + hi]
+        prefix = prefixes[0]
         if e.children:
             # a value next to / outside the registered children
             ch = rng.choice(e.children)
